@@ -813,6 +813,18 @@ class Evaluator:
             if isinstance(v, Arr):
                 v = v.data
             return list(v) if name == "list" else tuple(v)
+        if name in ("min", "max") and len(args) >= 2:
+            vals = [scalar(a) for a in args]
+            consts = [v for v in vals if v.is_const()]
+            syms = [v for v in vals if not v.is_const()]
+            if not syms:
+                f = min if name == "min" else max
+                return Rat.const(f(v.const_value() for v in consts))
+            if len(syms) == 1:
+                # min(c, x) / max(c, x) with a constant bound: a clip; identity on the domain where the bound is inactive
+                self.trace.append(("clip-assumed-inactive", name, syms[0].key()))
+                return syms[0]
+            raise AnalysisError("E3: %s of several non-constants (line %d)" % (name, node.lineno))
         if name == "sum":
             v = args[0]
             if isinstance(v, Arr):
@@ -826,6 +838,10 @@ class Evaluator:
     def method_call(self, base, attr, args, kwargs, node):
         if attr == "dot" and len(args) == 1:
             return self.np_dot(base, args[0], node)
+        if attr == "get" and isinstance(base, dict) and 1 <= len(args) <= 2:
+            return base.get(args[0], args[1] if len(args) == 2 else None)
+        if attr in ("keys", "values", "items") and isinstance(base, dict) and not args:
+            return list(getattr(base, attr)())
         if attr == "transpose" and not args:
             return self.np_transpose(base, node)
         if attr == "copy" and not args:
@@ -917,6 +933,10 @@ class Evaluator:
         except AnalysisError:
             raise
         raise AnalysisError("E3: dot of shapes %s and %s (line %d)" % (sa, sb, getattr(node, "lineno", 0)))
+
+    def sign_of(self, x, node):
+        """sign of a non-constant scalar: an atom (rules may override to enumerate sign patterns)"""
+        return func_atom("sign", x)
 
     def apply_unary(self, fname, x, node):
         x = scalar(x)
@@ -1051,6 +1071,34 @@ class Evaluator:
                     return inv
                 return self.binop(ast.Div(), inv, content, node)
             return Opaque("inv(%s)" % vkey(v), shape)
+        if name == "diag" and len(args) == 1:
+            A = args[0] if isinstance(args[0], Arr) else materialise(args[0])
+            if A is not None and len(A.shape) == 2 and A.shape[0] == A.shape[1]:
+                return Arr([A.data[i][i] for i in range(A.shape[0])])
+            if A is not None and len(A.shape) == 1:
+                k = A.shape[0]
+                return Arr([[A.data[i] if i == j else Rat.const(0) for j in range(k)] for i in range(k)])
+        if name in ("tril", "triu") and 1 <= len(args) <= 2:
+            A = args[0] if isinstance(args[0], Arr) else materialise(args[0])
+            k = const_int(args[1]) if len(args) == 2 else 0
+            if A is not None and len(A.shape) == 2 and k is not None:
+                keep = (lambda i, j: j - i <= k) if name == "tril" else (lambda i, j: j - i >= k)
+                return Arr([[A.data[i][j] if keep(i, j) else Rat.const(0) for j in range(A.shape[1])] for i in range(A.shape[0])])
+        if name == "sign" and len(args) == 1:
+            v = args[0]
+            A = v if isinstance(v, Arr) else (materialise(v) if isinstance(v, (list, tuple, Opaque)) else None)
+
+            def sg(x):
+                x = scalar(x)
+                if x.is_const():
+                    c = x.const_value()
+                    return Rat.const(1 if c > 0 else -1 if c < 0 else 0)
+                return self.sign_of(x, node)
+            if A is not None and A.shape != ():
+                def rec(d):
+                    return [rec(x) for x in d] if isinstance(d, list) else sg(d)
+                return Arr(rec(A.data))
+            return sg(v)
         if name == "linalg.solve" and len(args) == 2:
             return self.np_dot(self.np_call("linalg.inv", [args[0]], {}, node), args[1], node)
         if name == "linalg.det" and len(args) == 1:
